@@ -17,6 +17,18 @@ Theorem c19_no_private_on_wire : forall otp a, In a (wire_atoms (setup_wire2 otp
 Proof. exact no_private_on_wire. Qed.
 Print Assumptions c19_no_private_on_wire.
 
+(* the web-browser login (lib/client/webauth): the client's own requests are the pre-connect, the verification of
+   the CLI token and the same four certificate requests; whatever the signers hold, the key material in them is
+   signer.Public(); with real signers neither a request nor the URL handed to the browser carries anything private *)
+Theorem c19_wire_only_public_web : forall sg a, In a (wire_atoms (setup_wire_web sg)) ->
+  a = AText \/ a = ASecret \/ a = public (sg_x509 sg) \/ a = public (sg_ssh sg) \/ a = public (sg_ed sg).
+Proof. exact wire_web_only_public. Qed.
+Print Assumptions c19_wire_only_public_web.
+
+Theorem c19_no_private_on_wire_web : forall a, In a (wire_atoms (setup_wire_web make_signers) ++ browser_url) -> is_priv a = false.
+Proof. exact no_private_on_wire_web. Qed.
+Print Assumptions c19_no_private_on_wire_web.
+
 (* private halves go to the agent or into files of mode 0600, for every preference, user name,
    agent present or not, optional certificates issued or not *)
 Theorem c19_private_stays_local : forall sg p user agent_ok ed_ok k8s_ok s,
@@ -167,3 +179,7 @@ Example c19_ex_no_agent :
   let r := install_ssh_env e [(decoy, NAgent [])] "p256" "alice" (make_signer KSshMain) KSshMain (mkEntry [1] [13] true) in
   fst r = [(decoy, NAgent [])] /\ files_of (snd r) = [(".ssh/keymaster-p256", 384, true); (".ssh/keymaster-p256-cert.pub", 420, false)]%N%string.
 Proof. vm_compute. split; reflexivity. Qed.
+
+Example c19_ex_wire_web : map req_code (setup_wire_web make_signers) =
+  [(0, []); (6, [1]); (2, [20]); (3, [20]); (4, [21]); (4, [22])]%N.
+Proof. vm_compute. reflexivity. Qed.
